@@ -329,6 +329,19 @@ func Generate(r *rand.Rand, cfg Config) *Schema {
 				g.pkgNames[p] = map[string]bool{}
 			}
 		}
+		// sibling packages whose directories are string prefixes of each other (…/v1 and …/v1beta1)
+		if r.IntN(3) == 0 {
+			p := strings.TrimSuffix(pkgs[r.IntN(len(pkgs))], ".v1") + ".v1beta1"
+			if !usedPkgs[p] {
+				usedPkgs[p] = true
+				pkgs = append(pkgs, p)
+				g.pkgRank[p] = len(g.pkgRank) + 1
+				g.pkgNames[p] = map[string]bool{}
+				if nfiles < len(pkgs) {
+					nfiles = len(pkgs)
+				}
+			}
+		}
 		if cfg.CustomOptions && mi == 0 {
 			optsFile = g.optionsFile(modWord)
 			mod.Files = append(mod.Files, optsFile)
